@@ -11,6 +11,9 @@ import re
 from .model import AnalysisError, Model
 
 
+_STRING_CONSTS = ("ascii_letters", "ascii_lowercase", "ascii_uppercase", "digits", "hexdigits", "octdigits", "punctuation")
+
+
 class Unfoldable(Exception):
     pass
 
@@ -231,6 +234,10 @@ class Folder:
             if q in self.m.modules:
                 return self.module_const(q, e.attr)
             q2 = self.m.resolve_name(module, e)
+            if q2 and q2.startswith("string.") and q2.split(".", 1)[1] in _STRING_CONSTS:
+                import string as _string  # stdlib character tables (A1: the platform behaves as documented)
+
+                return getattr(_string, q2.split(".", 1)[1])
             if q2 and not q2.startswith("urllib3."):
                 return EnumRef(q2)
             raise Unfoldable(text)
@@ -253,6 +260,13 @@ class Folder:
         if isinstance(e, ast.Call):
             f = e.func
             if isinstance(f, ast.Attribute):
+                if ast.unparse(f) == "str.maketrans":
+                    try:
+                        return str.maketrans(*[ev(a) for a in e.args])
+                    except Unfoldable:
+                        raise
+                    except Exception as ex:
+                        raise Unfoldable(str(ex))
                 if ast.unparse(f) == "re.compile":
                     args = [ev(a) for a in e.args]
                     kw = {k.arg: ev(k.value) for k in e.keywords}
